@@ -39,7 +39,7 @@ func TestVerifC08_restore(t *testing.T) {
 	aeads := []AEAD{AEAD_AES128GCM, AEAD_AES256GCM, AEAD_ChaCha20Poly1305}
 	verifmc.ParallelFor(len(aeads), func(ai int) {
 		a := aeads[ai]
-		name := c08AeadName(a)
+		name := map[AEAD]string{AEAD_AES128GCM: "AES128GCM", AEAD_AES256GCM: "AES256GCM", AEAD_ChaCha20Poly1305: "ChaCha20Poly1305"}[a]
 		suite := NewSuite(KEM_X25519_HKDF_SHA256, KDF_HKDF_SHA256, a)
 		sch := KEM_X25519_HKDF_SHA256.Scheme()
 		pk, sk := sch.DeriveKeyPair(verifmc.Shake("c08-restore-key", sch.SeedSize()))
